@@ -378,8 +378,12 @@ impl Archive {
         file.read_exact(&mut footer_size_bytes)?;
         let footer_size = u64::from_le_bytes(footer_size_bytes);
 
-        // Seek to start of footer
-        file.seek(SeekFrom::Start(file_size - 8 - footer_size))?;
+        // Seek to start of footer (a truncated or corrupt file can claim any footer size)
+        let footer_start = file_size
+            .checked_sub(8)
+            .and_then(|n| n.checked_sub(footer_size))
+            .context("Invalid archive: footer size exceeds file size")?;
+        file.seek(SeekFrom::Start(footer_start))?;
 
         // Read footer into buffer
         let mut footer = vec![0u8; footer_size as usize];
@@ -420,6 +424,10 @@ impl Archive {
             for _ in 0..num_parts {
                 let (offset, _) = read_varint(&mut cursor)?;
                 let (size, _) = read_varint(&mut cursor)?;
+                // A part (metadata + data) must lie inside the data area before the footer
+                if offset.checked_add(size).map_or(true, |end| end > footer_start) {
+                    anyhow::bail!("Invalid archive: part of stream {stream_name} lies outside the file");
+                }
                 stream.parts.push(Part::new(offset, size));
             }
 
